@@ -48,6 +48,9 @@ func (d *Delete) Unmarshal(b []byte) error {
 		}
 		spiSize := b[1]
 		numberOfSPI := binary.BigEndian.Uint16(b[2:4])
+		if numberOfSPI > 0 && spiSize != 4 {
+			return errors.Errorf("Delete: SPI size %d not supported, listed SPIs must be 4 bytes long", spiSize)
+		}
 		if len(b) < (4 + (int(spiSize) * int(numberOfSPI))) {
 			return errors.Errorf("Delete: No Sufficient bytes to get SPIs according to the length specified in header")
 		}
@@ -58,7 +61,7 @@ func (d *Delete) Unmarshal(b []byte) error {
 
 		b = b[4:]
 		var spi uint32
-		for i := 0; i+4 <= len(b); i += 4 {
+		for i := 0; i < 4*int(numberOfSPI); i += 4 {
 			verifhook.At("message.delete.spi", len(b)-i)
 			spi = binary.BigEndian.Uint32(b[i : i+4])
 			d.SPIs = append(d.SPIs, spi)
